@@ -7,6 +7,8 @@ import (
 	"fmt"
 	"os"
 	"strconv"
+	"sync"
+	"time"
 )
 
 type cmdFunc func(args []string) error
@@ -81,6 +83,19 @@ func readND(path string, each func(raw json.RawMessage) error) error {
 		}
 	}
 	return nil
+}
+
+// waitOrStall waits for the two parties of a sub-protocol; false means they did not both return within d
+// (a deadlock between them: each waits for bytes the other will never send).
+func waitOrStall(wg *sync.WaitGroup, d time.Duration) bool {
+	done := make(chan struct{})
+	go func() { wg.Wait(); close(done) }()
+	select {
+	case <-done:
+		return true
+	case <-time.After(d):
+		return false
+	}
 }
 
 func main() {
